@@ -28,7 +28,7 @@
    - reader and writer are total (no Panic). *)
 From Coq Require Import List ZArith NArith Bool Permutation.
 From Astisub Require Import Kit.Base Kit.Str Kit.Float64 Kit.Float64x Kit.Xml Model.Dur Model.Ttml
-  Proofs.DurProofs Proofs.TtmlBase Proofs.TtmlSpec Proofs.TtmlTime Proofs.TtmlFloat Proofs.TtmlTimeAll
+  Proofs.DurProofs Proofs.TtmlBase Proofs.TtmlSpec Proofs.TtmlTime Proofs.TtmlFloat Proofs.TtmlFloat2 Proofs.TtmlTimeAll
   Proofs.TtmlLines Proofs.TtmlPara Proofs.TtmlRefs Proofs.TtmlDocSpec Proofs.TtmlDoc Kit.XmlParse Proofs.XmlParseProofs Proofs.TtmlBytes.
 Import ListNotations.
 Open Scope Z_scope.
@@ -58,17 +58,25 @@ Theorem C03_time_offset : forall ip fp m fr tr, digits ip -> digits fp -> ip <> 
 Proof. exact offset_time_denotes. Qed.
 Print Assumptions C03_time_offset.
 
-Theorem C03_time_frames : forall ip fr tr, digits ip -> ip <> [] ->
-  0 < dval ip < 2 ^ 53 -> 0 < fr < 2 ^ 53 -> dval ip * second_ns < 2 ^ 49 * fr ->
-  exists r, ttml_time (offset_expr ip [] Mf) fr tr = Some r /\ denotes_instant r (dval ip * second_ns) fr.
+(* offsets in frames and in ticks; the count may carry a fraction (12.5f) *)
+Theorem C03_time_frames : forall ip fp fr tr, digits ip -> digits fp -> ip <> [] ->
+  let n := dec_mant ip fp in let den := 10 ^ Z.of_nat (length fp) in
+  0 < n < 2 ^ 53 -> (length fp <= 22)%nat -> 0 < fr < 2 ^ 53 -> n * second_ns < 2 ^ 49 * (den * fr) ->
+  exists r, ttml_time (offset_expr ip fp Mf) fr tr = Some r /\ denotes_instant r (n * second_ns) (den * fr).
 Proof. exact frames_offset_denotes. Qed.
 Print Assumptions C03_time_frames.
 
-Theorem C03_time_ticks : forall ip fr tr, digits ip -> ip <> [] ->
-  0 < dval ip < 2 ^ 53 -> 0 < tr < 2 ^ 53 -> dval ip * second_ns < 2 ^ 49 * tr ->
-  exists r, ttml_time (offset_expr ip [] Mt) fr tr = Some r /\ denotes_instant r (dval ip * second_ns) tr.
+Theorem C03_time_ticks : forall ip fp fr tr, digits ip -> digits fp -> ip <> [] ->
+  let n := dec_mant ip fp in let den := 10 ^ Z.of_nat (length fp) in
+  0 < n < 2 ^ 53 -> (length fp <= 22)%nat -> 0 < tr < 2 ^ 53 -> n * second_ns < 2 ^ 49 * (den * tr) ->
+  exists r, ttml_time (offset_expr ip fp Mt) fr tr = Some r /\ denotes_instant r (n * second_ns) (den * tr).
 Proof. exact ticks_offset_denotes. Qed.
 Print Assumptions C03_time_ticks.
+
+Theorem C03_time_zero_count : forall ip fp m fr tr, digits ip -> digits fp -> ip <> [] -> (m = Mf \/ m = Mt) ->
+  dec_mant ip fp = 0 -> ttml_time (offset_expr ip fp m) fr tr = Some 0.
+Proof. exact zero_count_time. Qed.
+Print Assumptions C03_time_zero_count.
 
 (* reading what TTMLOutDuration.MarshalText prints *)
 Theorem C03_time_format_roundtrip : forall t fr tr, 0 <= t <= max_int64 ->
